@@ -205,7 +205,9 @@ class Borrow:
 
 
 def generator_funcs(prog: Program, ci: ClassInfo) -> List[FuncInfo]:
-    own = [m for m in ci.methods.values() if m.name == 'schema' or m.name.startswith('_extract') or m.name.startswith('_build')]
+    dead = prog.__dict__.get('dead_helpers', set())      # new helpers whose every call site was inlined (normal.py)
+    own = [m for m in ci.methods.values() if (m.name == 'schema' or m.name.startswith('_extract') or m.name.startswith('_build'))
+           and m.qualname not in dead]
     # plus the module-level helpers of pjrpc.server.specs they (or the extractors) call: build_request_schema, build_response_schema, …
     ty = types_of(prog)
     seen = {f.qualname for f in own}
